@@ -8,7 +8,7 @@ RULE = ("CMRtuTest verdict vs. the Coq brute-force determinant oracle (tu_bf, pr
         "entries outside {-1,0,1}; random and structured (network, R10, R12, F7, 1-/2-sums, SP extensions, permuted, "
         "scaled, corrupted) matrices up to 7x7 with random full parameter vectors incl. stop flags; "
         "non-trivial = distinct (cfg, matrix) with at least 2 rows, 2 columns and 3 nonzeros")
-JUDGE_API = {"tu_signed": "tu"}
+JUDGE_API = {"tu_signed": "tu"}   # (replays of the deep-cert family re-judge with the oracle-free judge by size, see check.replay)
 CODES = {1: "malformed record", 30: "CMRtuTest failed", 31: "verdict not written although no stop flag is set",
          32: "TU verdict differs from the definition", 33: "no violating submatrix returned", 34: "violating submatrix invalid",
          35: "violator not minimal (|det| != 2 or a proper submatrix is not TU)", 36: "non-ternary input: violator is not a single entry",
@@ -111,7 +111,37 @@ def pivoted_lines(ctx, want_sub):
     return out
 
 
+def deep_cert_lines(ctx):
+    """large matrices (beyond the brute-force oracle) with the violating submatrix requested: binary 3-sums of a graphic
+    and a cographic matroid (TU by construction in the classical theory, not by a theorem of this development) and
+    pivoted ternary presentations of their Camion signings, a third of them corrupted; judged by judge_tu_cert: every
+    'not TU' answer must be certified by its submatrix"""
+    rng = ctx.rng.fork("tu-deep-cert")
+    q = ctx.quick
+    seeds = gen.deep_binary_seeds(rng, 40 if q else 400, 160)
+    signed = gen.library_signed(ctx.drive("rel"), seeds)
+    strategies = list(gen.STRATEGIES.values())
+    out = []
+    for i in range(1200 if q else 30000):
+        if i % 2 == 0:
+            M = gen.permute(rng, [r[:] for r in rng.choice(seeds)])
+            tern = 0
+            alpha = (0, 1)
+        else:
+            M = gen.pivoted_presentation(rng, [r[:] for r in rng.choice(signed)], rng.below(3))
+            tern = 1
+            alpha = (-1, 0, 1)
+        if rng.below(3) == 0:
+            M = gen.corrupt(rng, M, alpha)
+        c = gen.cfg(algorithm=0, ternary=tern, camionFirst=rng.below(2), naive=0, strategy=rng.choice(strategies),
+                    direct=rng.below(2), sp=rng.below(2), wantSub=1)
+        out.append(gen.cfg_line(c) + " " + mat_line(M))
+    return out
+
+
 def run(ctx):
+    ctx.stream("tu", deep_cert_lines(ctx), "large 3-sum matrices, 'no' answers certified by their submatrix",
+               judge_api="tu_cert", describe=lambda c: CODES.get(c, str(c)), nontrivial=nontrivial, keyfn=keyfn)
     ctx.stream("tu", pivoted_lines(ctx, 0), "pivoted presentations of signed regular matroids (R10, R12, 3-sums)",
                describe=lambda c: CODES.get(c, str(c)), nontrivial=nontrivial, keyfn=keyfn)
     ctx.stream("tu_signed", r10_lines(ctx, 0), "Camion-signed 5x5 matrices passing the R10 count test", judge_api="tu",
